@@ -1,0 +1,16 @@
+//go:build go1.22 && verif
+
+package xruntime
+
+import "sync/atomic"
+
+// VerifRand, when non-nil, replaces Fastrand's result (admission coin, read
+// stripe choice, counter stripe choice). Only compiled with the verif build tag.
+var VerifRand atomic.Pointer[atomic.Uint32]
+
+func verifRand() (uint32, bool) {
+	if p := VerifRand.Load(); p != nil {
+		return p.Load(), true
+	}
+	return 0, false
+}
